@@ -138,6 +138,7 @@ fn sig_case() -> impl Strategy<Value = SigCase> {
     let perturb = prop_oneof![
         4 => (any::<u32>(), any::<u8>(), any::<u8>()).prop_map(|(a, b, c)| Perturb::NodeByte(a, b, c)),
         2 => (any::<u32>(), any::<u16>()).prop_map(|(a, b)| Perturb::EdgeStart(a, b)),
+        2 => (any::<u32>(), any::<u16>(), any::<u8>()).prop_map(|(a, b, c)| Perturb::EdgeStartTo(a, b, c)),
         2 => (any::<u32>(), any::<u16>()).prop_map(|(a, b)| Perturb::Edge(a, b)),
         3 => any::<u8>().prop_map(Perturb::SaltBit),
         1 => any::<u32>().prop_map(Perturb::DropPred),
